@@ -33,7 +33,10 @@ for res in sorted(glob.glob("/tmp/seedverify/*.result")):
         cp = os.path.basename(out)[4:-4]
         ex = re.findall(r"^exit=(\d+)", o, re.M)
         viol = re.findall(r"^VIOLATION property=\S+ replay=\S+(.*)$\n  (.*)$", o, re.M)
-        runs.append(dict(check=cp, exit=int(ex[-1]) if ex else None, violations=len(viol),
+        def tier_of(line: str) -> str:
+            return "proof" if any(k in line for k in ("obligation ", "refuted by", "frame:", "@guard", ":post:", ":pre@", ":inv-", ":hint")) else "bounded"
+        tiers = sorted({tier_of(v[1]) for v in viol})
+        runs.append(dict(check=cp, exit=int(ex[-1]) if ex else None, violations=len(viol), tiers=tiers,
                          first=[(v[1][:260] + (" [no-failing-input-found]" if "no-failing" in v[0] else "")) for v in viol[:3]],
                          summary=(re.findall(r"^\[C\d\d\] tier=.*$", o, re.M) or [""])[-1]))
     detected = any(r["exit"] == 1 and r["violations"] > 0 for r in runs)
@@ -60,7 +63,11 @@ for res in sorted(glob.glob("/tmp/seedverify/*.result")):
 print("| seed | property | change (author's summary) | confirmed | caught by | first report |")
 print("|---|---|---|---|---|---|")
 for name, pid, conf, runs, det, summ, still, fl in rows:
-    by = ", ".join(f"{r['check']} (exit {r['exit']}, {r['violations']} violation lines)" for r in runs) or "not run yet"
+    best = {}
+    for r in runs:        # the last run of each check counts (earlier ones used an older /verif)
+        best[r["check"]] = r
+    runs = list(best.values())
+    by = ", ".join(f"{r['check']}: exit {r['exit']}, {r['violations']} violation lines ({'+'.join(r.get('tiers', [])) or '-'})" for r in runs) or "not run yet"
     first = (runs[0]["first"][0][:160] if runs and runs[0]["first"] else "")
     c = "yes" if conf else ("NO: " + ",".join(still) if still else "no")
     print(f"| {name} | {pid} | {summ} | {c} | {by if runs else 'not run yet'} | {first} |")
